@@ -43,7 +43,9 @@ EXPECT = [
     ("NewMapJson returned a partly filled", ["C15"]),
     ("element named like a reserved key", ["C15"]),
     ("namespace prefix contains", ["C15"]),
-    ("dropped a top-level empty key", ["C08"]),
+    ("PathsForKey dropped a top-level empty key", ["C08"]),
+    ("LeafNodes/LeafPaths dropped a top-level empty key", ["C09"]),
+    ("with an index ignored empty path segments", ["C07", "C09"]),
 ]
 
 
